@@ -60,7 +60,7 @@ func NewKeycloakProvider(p *ProviderData, opts options.KeycloakOptions) *Keycloa
 	})
 
 	provider := &KeycloakProvider{ProviderData: p}
-	provider.setAllowedGroups(opts.Groups)
+	provider.addAllowedGroups(opts.Groups)
 	return provider
 }
 
